@@ -245,15 +245,19 @@ def check_status(c):
 
     devs = []
     a, s = c["action"], c["status"]
-    members = {int(m) for m in S.__members__.values() if int(m) >= 0}
+    from ..ref.names import FILESTORE_STATUS
+
     got = T.map_int_status_code_to_enum(T.FilestoreActionCode(a), s)
-    if ((a << 4) | s) in members:
+    if s in FILESTORE_STATUS[a]:  # the pairs table 5-18 of the standard defines (not the library's own member list)
         eq(devs, "status.to_enum", int(got), (a << 4) | s)
         e = S((a << 4) | s)
         eq(devs, "status.to_int", T.map_enum_status_code_to_int(e), s)
         ac, st4 = T.map_enum_status_code_to_action_status_code(e)
         eq(devs, "status.to_action_status", (int(ac), int(st4)), (a, s))
-    else:
+    elif ((a << 4) | s) not in {int(m) for m in S.__members__.values()}:
+        # a pair the standard does not define: the documented answer is INVALID. (Pairs that collide with one of the library's
+        # action-independent helper members - SUCCESS, NOT_PERFORMED, APPEND_FROM_DATA_FILE_NOT_EXISTS = 2 - are left alone:
+        # nothing states what they map to.)
         eq(devs, "status.invalid", int(got), int(S.INVALID))
     return devs
 
@@ -393,6 +397,11 @@ CLAUSES.append(Clause(
     kind="enum", enum=enum_locale, check=check_locale, classify=lambda c: ["ascii locale"], required=["ascii locale"], shards={"quick": 1, "thorough": 1}, weight_by_evals=True,
     rule="each name is one evaluation",
 ))
+
+from ..names_check import names_clause  # noqa: E402
+
+if names_clause("C08") is not None:
+    CLAUSES.append(names_clause("C08"))
 
 PROPERTY = Property(
     id="C08",
